@@ -91,6 +91,12 @@ Proof.
   - unfold r_graph; cbn [g_elabs]. apply tbl_adds_prefix.
   - intros re ge Hin. apply (wf_labs _ WG). unfold r_graph; cbn [g_edges]. apply in_app_iff; right.
     unfold r_em in Hin. eapply in_combine_r; eauto.
+  - unfold r_graph; cbn [g_nlabs]. f_equal. unfold r_nm. rewrite filter_app.
+    rewrite (filter_combine_none (fun v => negb (is_ext r v))).
+    2:{ intros x Hx. apply negb_false_iff. apply is_ext_In; auto. }
+    rewrite (filter_combine_all (fun v => negb (is_ext r v))).
+    2:{ intros x Hx. apply nonext_In in Hx. apply negb_true_iff. unfold is_ext. apply (memb_false node_eqb node_eqb_eq). tauto. }
+    simpl. rewrite <- (map_map snd n_label). rewrite combine_vals; auto. rewrite copies_length; auto.
 Qed.
 
 Lemma r_next_le : forall nx r, nx <= r_next nx r.
@@ -156,10 +162,10 @@ Definition ex_t : elabel := mkLab 1 [0; 0] true.
 Definition ex_X : elabel := mkLab 0 [0] false.
 Definition ex_host : graph :=
   let a := mkNode (Explicit 0) 0 in let b := mkNode (Fresh 0) 0 in
-  mkGraph [a; b] [mkEdge (Explicit 0) ex_t [a; b]; mkEdge (Fresh 1) ex_X [b]] [a] [ex_t; ex_X].
+  mkGraph [a; b] [mkEdge (Explicit 0) ex_t [a; b]; mkEdge (Fresh 1) ex_X [b]] [a] [ex_t; ex_X] [0].
 Definition ex_repl : graph :=
   let u := mkNode (Explicit 0) 0 in let v := mkNode (Explicit 1) 0 in
-  mkGraph [u; v] [mkEdge (Explicit 0) ex_t [u; v]; mkEdge (Explicit 1) ex_X [v]] [u] [ex_t; ex_X].
+  mkGraph [u; v] [mkEdge (Explicit 0) ex_t [u; v]; mkEdge (Explicit 1) ex_X [v]] [u] [ex_t; ex_X] [0].
 Definition ex_edge : edge := mkEdge (Fresh 1) ex_X [mkNode (Fresh 0) 0].
 Example replace_spec_main_hyps :
   wf_graphb ex_host = true /\ belowb 2 ex_host = true /\ memb edge_eqb (g_edges ex_host) ex_edge = true /\
@@ -178,10 +184,10 @@ Definition ex_X2 : elabel := mkLab 0 [0; 0] false.
 Definition ex_t1 : elabel := mkLab 1 [0] true.
 Definition dup_host : graph :=
   let a := mkNode (Explicit 0) 0 in let b := mkNode (Explicit 1) 0 in
-  mkGraph [a; b] [mkEdge (Explicit 0) ex_X2 [a; b]] [] [ex_X2].
+  mkGraph [a; b] [mkEdge (Explicit 0) ex_X2 [a; b]] [] [ex_X2] [0].
 Definition dup_repl : graph :=
   let u := mkNode (Explicit 0) 0 in
-  mkGraph [u] [mkEdge (Explicit 0) ex_t1 [u]] [u; u] [ex_t1].
+  mkGraph [u] [mkEdge (Explicit 0) ex_t1 [u]] [u; u] [ex_t1] [0].
 Theorem replace_glue_refuted :
   exists g nx e r g' nx' nm em,
     wf_graphb g = true /\ belowb nx g = true /\ memb edge_eqb (g_edges g) e = true /\ wf_graphb r = true /\
